@@ -58,6 +58,10 @@ def setter_calls(db, name, nargs):
 
 
 def run(db, cx):
+    # shared with C02: every surviving secondary is initialised in place or queued - one that is
+    # neither vanishes with its kinetic energy (seeded change c01e)
+    import C02 as _c02
+    _c02.inplace_agreement(db, cx, rule="C01.6-secondaries-become-tracks")
     # ---------------------------------------------------------------- anchors
     for n in (PTV + "::subtract_energy", PTV + "::energy", PSV + "::deposit_energy",
               ELOSS, TCUT, IAPP):
